@@ -52,11 +52,11 @@ CLAIMS["C01"] = dict(
           "is reachable from the API (R01h); finalise_alignment renders all numseq sequences and make_linear_sequence writes "
           "the gaps[j] dashes in front of residue j (R01i); nothing reachable from kalign_run stores into an element of "
           "msa_seq.seq before the rows are rendered (R01j) and no sorting call lies between kalign_run and the export in any API "
-          "function (R01k)."),
+          "function (R01k); read_fasta copies the whole header line into the name (R01l)."),
     note=("Clauses only: the gap arithmetic (make_seq, update_gaps, add_gap_info_to_path_n, mirror_path_n), equal row "
           "lengths and absence of all-gap columns are sums over run-time arrays and are NOT decided."),
     technique="CFG must-pass-through, who-may-read/write table, store provenance, typestate gate",
-    design_ref="DESIGN.md section 3, C01 (R01a-R01k)")
+    design_ref="DESIGN.md section 3, C01 (R01a-R01l)")
 
 CLAIMS["C03"] = dict(
     text=("Decides non-interference of the caller's order with the computation: the canonical (len,name) sort dominates "
@@ -78,12 +78,13 @@ CLAIMS["C04"] = dict(
           "before the merge phase reads gaps; kalign_read_input never resets or overwrites a non-NULL accumulator and "
           "merge_msa recomputes kind, status and profile tables on every success path; input positions are numbered once over "
           "the merged set (R04k = R01b); no failure exit of kalign_read_input - which runs once per input file - is taken for exactly "
-          "one record read so far (guards evaluated at numseq = 1; the count is judged after the merge, R04l)."),
+          "one record read so far (guards evaluated at numseq = 1; the count is judged after the merge, R04l); merge_msa re-detects "
+          "status and tables after the last record has been appended; no reader assigns block rows by a prefix comparison of names (R04m)."),
     note=("Clauses only: byte-identical output for two presentations needs the whole parser semantics over all byte strings "
           "and is NOT decided; the format-sniffing tokens are covered under C06, the kind decision under C13. Heuristics "
           "with numeric thresholds (is the file empty, first-100-lines sniffing) are not decided."),
     technique="sibling cross-check of reader chains, loop-span/coverage rule with affine bounds, who-may-write, must-call",
-    design_ref="DESIGN.md section 3, C04 (R04a-R04l)")
+    design_ref="DESIGN.md section 3, C04 (R04a-R04m)")
 
 CLAIMS["C06"] = dict(
     text=("Decides the lexical contract that any round trip needs: every token detect_alignment_format / read_msf / "
@@ -165,7 +166,8 @@ CLAIMS["C07"] = dict(
           "mapped to open/extension/terminal classes, scores to S) in every DP cell, carried local and candidate, under "
           "each of the four border situations, each backward pass is the left-right mirror image of its forward pass, and the "
           "border tests select interior/terminal prices with the same polarity; the runners save the boundary states before a "
-          "kernel has run (slot 0 of the f/b arrays is DP cell 0 as well)."),
+          "kernel has run (slot 0 of the f/b arrays is DP cell 0 as well); do_align's wiring is decided per scenario (sequence/profile x "
+          "shorter/longer) on the evaluated set-up code; make_profile_n copies the substitution row of every protein code (R07i)."),
     note=("The optimality statement itself is numerical and is NOT decided: the recurrence comparison is relative (a slip "
           "made identically in all six passes is invisible), and profile row/column offsets, float rounding and "
           "tie-breaks are not examined."),
@@ -184,11 +186,11 @@ CLAIMS["C13"] = dict(
           "that letter, three quarters of the shared letter that pulls hardest towards nucleotide) is evaluated exactly; the "
           "larger total selects the matching biotype; msa.biotype is assigned a kind only by detect_alphabet; the kind gates the type; "
           "every increment of the histogram by an input character is executed for all 52 letters and under no budget that the counting "
-          "itself uses up (R13g)."),
+          "itself uses up (R13g); merge_msa adds the histograms and re-runs the detection after the append (R13h)."),
     note=("Known finding F24 (recorded, not repaired): the second premise fails literally for the letters B, Z and X, which are not "
           "in the protein model (replay: findings/F24). Assumes C-locale isalpha."),
     technique="effect summary (read set), constant evaluation of the letter models, finite evaluation of the voting filter, who-may-write",
-    design_ref="DESIGN.md section 3, C13 (R13a-R13g)")
+    design_ref="DESIGN.md section 3, C13 (R13a-R13h)")
 
 CLAIMS["C14"] = dict(
     text=("Decides non-interference of case and T/U spelling: among everything kalign_run runs before finalise_alignment "
@@ -199,7 +201,8 @@ CLAIMS["C14"] = dict(
           "each letter's margin (nucleotide weight - protein weight) equals that of its case twin and T's equals U's, which is "
           "evaluated from the reconstructed models; in each reader every letter and its case twin take the same branch of the "
           "character classification (all byte values evaluated); elements of msa.letter_freq are read only by the kind decision, "
-          "the additive merge and diagnostics - no other code looks at the count of one particular spelling (R14g)."),
+          "the additive merge and diagnostics - no other code looks at the count of one particular spelling (R14g); every comparison of "
+          "the raw residue letter with constants gives the same answer for both cases of a letter (all 26 pairs evaluated)."),
     note=("Known finding F23 (recorded, not repaired): T is a letter of the protein model and U is not, so nucleotide input with "
           "more than ~10% ambiguity letters is detected as protein in T spelling and nucleotide in U spelling (replay: "
           "findings/F23). Assumes C-locale isalpha."),
@@ -229,7 +232,8 @@ CLAIMS["C17"] = dict(
           "check and matching order use one comparison function; every row-walking loop (also inside private helpers) is "
           "bounded by the length of the alignment its rows belong to; the score is computed without float operands and without any "
           "local or conversion narrower than the counter fields (R17h); kalign_sort_msa sorts on every success path or skips the sort "
-          "only after a scan whose range covers all numseq-1 adjacent pairs (R17i)."),
+          "only after a scan whose range covers all numseq-1 adjacent pairs (R17i); every test compare_pair makes on a row character is "
+          "case-blind and tells letters from the gap symbol (R17j, evaluated per byte)."),
     note="Does not decide that the counters count the stated relations (index arithmetic in compare_pair) nor the 0..100 range.",
     technique="CFG dominance + argument pairing + reaching definitions + counter classification by scanned parameters",
-    design_ref="DESIGN.md section 3, C17 (R17a-R17i)")
+    design_ref="DESIGN.md section 3, C17 (R17a-R17j)")
